@@ -875,6 +875,8 @@ class Fn:
                     return pv
                 if info["mode"] == "local" and name not in env["defined"] and info["ty"].kind != "struct":
                     return V("__UNINIT__", info["ty"], ["false"])
+                if info["mode"] == "local" and info["ty"].kind == "int" and name in env.get("consts", {}):
+                    return litv(env["consts"][name], info["ty"])     # a local that holds a known constant on this path
                 pv = V(self.ln(name), info["ty"])
                 if info.get("bound"):
                     pv.bound = info["bound"]
@@ -971,6 +973,10 @@ class Fn:
         if op in ("&&", "||"):
             a = self.as_bool(self.expr(a_n, env, "bool"))
             b = self.as_bool(self.expr(b_n, env, "bool"))
+            if a.const is not None:
+                if (op == "&&") == bool(a.const):
+                    return V(b.text, Ty("bool"), list(a.guards) + list(b.guards), const=b.const)
+                return V("false" if op == "&&" else "true", Ty("bool"), list(a.guards), const=int(op != "&&"))
             if op == "&&":
                 gs = list(a.guards) + [implies(a.text, g) for g in b.guards]
             else:
@@ -995,6 +1001,10 @@ class Fn:
                 b = self.as_int(b, a.ty)
             if a.ty.bits != b.ty.bits or a.ty.signed != b.ty.signed:
                 bad("comparison of different types %r %r" % (a.ty, b.ty), n)
+            if a.const is not None and b.const is not None:
+                x, y = sval(a.const, a.ty), sval(b.const, b.ty)
+                r = {"==": x == y, "!=": x != y, "<": x < y, "<=": x <= y, ">": x > y, ">=": x >= y}[op]
+                return V("true" if r else "false", Ty("bool"), gs, const=int(r))
             s = a.ty.signed
             t = {"==": "(%s == %s)", "!=": "(%s != %s)",
                  "<": "(BitVec.slt %s %s)" if s else "(BitVec.ult %s %s)",
@@ -1447,6 +1457,7 @@ class Fn:
             rty = info["ty"].elem.lean() if info["mode"] in ("value", "inout") else info["ty"].lean()
             lines.append("let %s : %s := %s" % (self.ln(p["root"]), rty, self.update_text(p, "aux_")))
             env2["defined"].add(self.path_key(p))
+            env2.get("consts", {}).pop(p["root"], None)
         rty = None
         node_ty = n.get("type", {}).get("qualType", "void")
         if spec.get("ret") and strip_quals(node_ty) != "void":
@@ -1796,6 +1807,10 @@ class Fn:
 
             def fin(env2):
                 c = self.as_bool(self.expr(cond, env2, "bool"))
+                if c.const is not None:
+                    taken = th if c.const else el
+                    body = self.stmt(taken, copy_env(env2), ctx) if taken is not None else nxt(copy_env(env2))
+                    return self.guarded(c.guards, body)
                 t_txt = self.stmt(th, copy_env(env2), ctx)
                 e_txt = self.stmt(el, copy_env(env2), ctx) if el is not None else nxt(copy_env(env2))
                 body = "if %s then\n%s\nelse\n%s" % (c.text, indent(paren(t_txt), 2), indent(paren(e_txt), 2))
@@ -1917,7 +1932,7 @@ class Fn:
                 return again(env2)
             return self.stmt(inc, env2, dict(ctx, next=again))
         inner_ctx = dict(ctx, next=step, brk=lambda env2: after(env2), cont=step)
-        env_in = {"defined": set(live)}
+        env_in = {"defined": set(live), "consts": {}}
 
         def fin(env2):
             c = self.as_bool(self.expr(cond, env2, "bool"))
@@ -2007,6 +2022,9 @@ class Fn:
                     v = self.as_bool(v)
             env3 = copy_env(env2)
             env3["defined"].add(name)
+            env3.setdefault("consts", {}).pop(name, None)
+            if ty.kind == "int" and v.const is not None and self.vars[name]["mode"] == "local":
+                env3["consts"][name] = v.const
             if ty.kind == "ptr" and getattr(v, "bound", None) and not self.vars[name].get("bound"):
                 self.vars[name]["bound"] = v.bound
             tytxt = "Nat" if ty.kind == "ptr" else ty.lean()
@@ -2043,6 +2061,9 @@ class Fn:
                     v = self.as_bool(v)
             env3 = copy_env(env2)
             env3["defined"].add(self.path_key(p))
+            env3.setdefault("consts", {}).pop(p["root"], None)
+            if (not p["steps"] and p["ty"].kind == "int" and v.const is not None and self.vars[p["root"]]["mode"] == "local"):
+                env3["consts"][p["root"]] = v.const
             root = p["root"]
             info = self.vars[root]
             rty = info["ty"].elem.lean() if info["mode"] in ("value", "inout") else ("Nat" if info["ty"].kind == "ptr" else info["ty"].lean())
@@ -2123,6 +2144,8 @@ class Fn:
         root = p["root"]
         info = self.vars[root]
         rty = info["ty"].elem.lean() if info["mode"] in ("value", "inout") else info["ty"].lean()
+        env = copy_env(env)
+        env.get("consts", {}).pop(root, None)
         return self.guarded(gs, "let %s : %s := %s\n%s" % (self.ln(root), rty, self.update_text(p, "(%s %s %s)" % (cur, op, lit(1, ty.bits))), nxt(env)))
 
     def switch(self, s, env, ctx):
@@ -2199,7 +2222,7 @@ class Fn:
 
 
 def copy_env(env):
-    return {"defined": set(env["defined"])}
+    return {"defined": set(env["defined"]), "consts": dict(env.get("consts", {}))}
 
 
 def indent(t, n):
